@@ -248,6 +248,60 @@ func TestVerifC19(t *testing.T) {
 		}
 	}
 
+	// STALLS: the source returns (0, nil) many times in a row in the middle of a draw (a device that is not
+	// ready) and then goes on. The call must either complete the draw (model result) or give up with an error
+	// and nothing else; it must never go on with a partly filled nonce or key.
+	for _, entry := range []string{"GenerateKey", "SignHashed"} {
+		for _, nrej := range []int{0, 1, 3} {
+			for _, off := range []int{0, 1, 13, 31} {
+				for _, cnt := range []int{1, 2, 99, 100, 101, 150, 1000, 70000} {
+					for _, after := range []string{"data", "eof"} {
+						var stream []byte
+						for j := 0; j < nrej; j++ {
+							stream = append(stream, over[j%3]...)
+						}
+						stream = append(stream, ref.B32(randScalar(rng))...)
+						stream = append(stream, rng.Bytes(32)...)
+						at := nrej*32 + off
+						rd := newScript(stream)
+						rd.stallAt, rd.stallCount = at, cnt
+						if after == "eof" {
+							rd.failAt = at // nothing more after the stall: must be an error
+						}
+						det := hk.D{"entry": entry, "stream": hk.Hex(stream), "stall_at": at, "empty_reads": cnt, "then": after, "priv": hk.Hex(priv)}
+						var out1, out2, out3 []byte
+						var err error
+						p, pm, _, _ := hk.Try(func() {
+							if entry == "GenerateKey" {
+								out1, out2, out3, err = GenerateKey(rd)
+							} else {
+								out1, out2, err = SignHashed(rd, priv, e)
+							}
+						})
+						okModel := false
+						if entry == "GenerateKey" {
+							m := ref.SM2KeyGen(stream)
+							okModel = after == "data" && err == nil && bytes.Equal(out1, ref.B32(m.D)) && bytes.Equal(out2, ref.B32(m.Pub.X)) && bytes.Equal(out3, ref.B32(m.Pub.Y))
+						} else {
+							m := ref.SM2Sign(d, e, stream)
+							okModel = after == "data" && err == nil && bytes.Equal(out1, ref.B32(m.R)) && bytes.Equal(out2, ref.B32(m.S))
+						}
+						gaveUp := err != nil && out2 == nil && (entry == "GenerateKey" && out3 == nil || entry != "GenerateKey" && out1 == nil)
+						det["error"], det["out"] = errStr(err), hexOrNil(out1)+","+hexOrNil(out2)
+						switch {
+						case p:
+							det["panic"] = pm
+							r.Violation("panic-on-stalling-source:"+entry, det)
+						case !okModel && !gaveUp:
+							r.Violation("stalling-source-neither-completed-nor-refused:"+entry, det)
+						}
+						r.Eval(fmt.Sprintf("%s:stall=%d,off=%d,nrej=%d,then=%s", entry, cnt, off, nrej, after))
+					}
+				}
+			}
+		}
+	}
+
 	// nil source
 	{
 		var gp, gx, gy []byte
